@@ -411,6 +411,8 @@ func (g *gen) families18() {
 	for _, b := range small {
 		g.structuredFamily(b)
 	}
+	// adversarial extents: element counts / byte sizes that wrap around in 64-bit arithmetic
+	g.overflowFamily()
 	// B. the same single faults through the other readers (strided in quick)
 	stride := 7
 	if g.thorough() {
